@@ -761,6 +761,9 @@ MODULES = {
             A_plumbing('ClientDataset.__init__', ['self', 'raw_examples', 'preprocessor'], None,
                        'assert_consistent_rows(raw_examples)\nself.raw_examples = raw_examples\n'
                        'self.preprocessor = preprocessor\n'),
+            A_plumbing('BatchPreprocessor.__init__', ['self', 'fns'], None, 'self._fns = tuple(fns)\n'),
+            A_plumbing('BatchPreprocessor.append', ['self', 'fn'], None, 'return BatchPreprocessor(self._fns + (fn,))\n'),
+            A_plumbing('ClientDataset.all_examples', ['self'], None, 'return self.preprocessor(self.raw_examples)\n'),
             A_plumbing('ClientDataset.batch', ['self', 'hparams'], 'kwargs', _hparams_entry('BatchHParams', 'BatchView')),
             A_plumbing('ClientDataset.padded_batch', ['self', 'hparams'], 'kwargs',
                        _hparams_entry('PaddedBatchHParams', 'PaddedBatchView')),
